@@ -15,6 +15,35 @@ import (
 func init() {
 	calls["imageblk.transfer"] = callImageblkTransfer
 	calls["imageblk.extents"] = callImageblkExtents
+	calls["imageblk.load"] = callImageblkLoad
+}
+
+// callImageblkLoad is the file ingest behind the RPC command `node <uuid> <data> load <offset>
+// <files>` (Data.DoRPC "load" starts Data.LoadImages in a goroutine and only logs its error):
+// LoadImages is called directly so that the caller knows when the ingest is done and how it
+// ended.  The files are XY images readable by the server, one per Z slice.
+func callImageblkLoad(args json.RawMessage) (interface{}, error) {
+	var a struct {
+		Data   string   `json:"data"`
+		UUID   string   `json:"uuid"`
+		Offset [3]int32 `json:"offset"`
+		Files  []string `json:"files"`
+	}
+	if err := json.Unmarshal(args, &a); err != nil {
+		return nil, err
+	}
+	d, err := imageblkData(a.UUID, a.Data)
+	if err != nil {
+		return nil, err
+	}
+	v, err := datastore.VersionFromUUID(dvid.UUID(a.UUID))
+	if err != nil {
+		return nil, err
+	}
+	if err := d.LoadImages(v, dvid.Point3d{a.Offset[0], a.Offset[1], a.Offset[2]}, a.Files); err != nil {
+		return map[string]interface{}{"err": err.Error()}, nil
+	}
+	return map[string]interface{}{"err": ""}, nil
 }
 
 func imageblkData(uuid, name string) (*imageblk.Data, error) {
